@@ -56,6 +56,30 @@ func skipType(t reflect.Type) bool {
 	return p == "sync" || strings.HasSuffix(p, "/vhook") || p == "sync/atomic"
 }
 
+// leafType reports whether v points to a scalar type of ir/types that carries no type name.
+func leafType(t reflect.Type, v reflect.Value) bool {
+	e := t.Elem()
+	if e.Kind() == reflect.Struct && e.Name() == "Int" && strings.HasSuffix(e.PkgPath(), "/ir/constant") {
+		// boolean constants: `true` / `false` are read as the package singletons constant.True /
+		// constant.False, the spellings `i1 1` / `i1 0` as fresh objects; a boolean is a value.
+		if ty := v.Elem().FieldByName("Typ"); ty.IsValid() && !ty.IsNil() {
+			if bs := ty.Elem().FieldByName("BitSize"); bs.IsValid() && bs.Uint() == 1 {
+				return true
+			}
+		}
+		return false
+	}
+	if e.Kind() != reflect.Struct || !strings.HasSuffix(e.PkgPath(), "/ir/types") {
+		return false
+	}
+	switch e.Name() {
+	case "IntType", "FloatType", "VoidType", "LabelType", "TokenType", "MetadataType", "MMXType":
+		n := v.Elem().FieldByName("TypeName")
+		return !n.IsValid() || n.String() == ""
+	}
+	return false
+}
+
 func (w *walker) walk(v reflect.Value) {
 	if !v.IsValid() {
 		w.emit("invalid")
@@ -75,6 +99,16 @@ func (w *walker) walk(v reflect.Value) {
 		if t == bigFloatT {
 			f := v.Interface().(*big.Float)
 			w.emit(fmt.Sprintf("big.Float %s prec=%d neg=%v", f.Text('p', 0), f.Prec(), f.Signbit()))
+			return
+		}
+		if leafType(t, v) {
+			// an anonymous scalar type (i32, double, void, ...) is a value: which occurrences share
+			// one Go object is not structure (`i1 1` and `i1 true` are read through different
+			// constructors, one of which uses the package's predeclared types.I1).
+			w.emit("leaf-type " + t.String())
+			w.depth++
+			w.walk(v.Elem())
+			w.depth--
 			return
 		}
 		p := v.Pointer()
